@@ -336,3 +336,23 @@ CHECKS["C18"] = {
         {"variant": "tsan", "engine": "stress", "procs": 2, "rounds_quick": 1000, "rounds_thorough": 20000},
     ],
 }
+
+CHECKS["C14"] = {
+    "src": "C14.cpp",
+    "level": "fault_enumeration",
+    "rule": "for each writer operation (lr modify, cow lock+commit, cow lock+cancel, rcu push_front/back, emplace_front/back, erase), with and "
+            "without a read handle taken beforehand, a dry run counts the scheduling points K the operation executes (every atomic access, lock, "
+            "yield, user point; capped at 90 where spin loops repeat); for every k <= K the writer is frozen at its k-th point while 1-3 reader "
+            "threads run 1-3 complete read operations (lock_shared / try forms, dereference, snapshot copy, lock_read / begin / full traversal, "
+            "release) under random schedules; then the early handle is released, the writer is resumed and must finish. Violations: a reader "
+            "that cannot run to completion (no runnable thread / step budget) while the writer is frozen, a contended lock, condition wait or "
+            "spin-yield inside a read acquisition, a writer that does not finish. Non-trivial: the writer was actually frozen in the round; "
+            "distinct = (writer op, early handle, k, schedule signature).",
+    "assumptions": ["the suspension points of each writer operation are enumerated completely (up to the cap inside spin loops); reader scripts and "
+                    "schedules are sampled", "suspension is simulated by the serialized scheduler: only scheduling points (shim hooks) are suspension points"],
+    "exhaustive_note": "writer suspension points 1..K per operation (K measured per run, listed in samples) are all visited; readers/schedules sampled",
+    "runs": [
+        {"variant": "plain", "engine": "serial", "procs_quick": 6, "procs_thorough": 12, "rounds_quick": 4, "rounds_thorough": 60},
+        {"variant": "asan", "engine": "serial", "procs_quick": 2, "procs_thorough": 4, "rounds_quick": 2, "rounds_thorough": 20},
+    ],
+}
